@@ -9,19 +9,21 @@ def showOpt : Option Nat → String
   | none => "never"
   | some t => toString t
 
-def parseBeh (w : String) : Option (Nat × Option Nat) :=
-  match w.splitOn ":" with
-  | [g, l] => do
-    let g ← g.toNat?
-    let l ← optNat? l
-    pure (g, l)
+def nats? (s : String) : Option (List Nat) :=
+  if s == "-" then some [] else (s.splitOn ",").mapM String.toNat?
+
+/-- `gap;skips;final`, e.g. `10;-;5`, `0;3,4;-` (`-` = none). -/
+def parseBeh (w : String) : Option Beh :=
+  match w.splitOn ";" with
+  | [g, k, l] => do
+    pure ⟨← g.toNat?, ← nats? k, ← optNat? l⟩
   | _ => none
 
 def b01 (b : Bool) : String := if b then "1" else "0"
 
 def handle (line : String) : String :=
   match words line with
-  | ["steps"] => " ".intercalate (steps.map fun s => s!"{s.name}:{b01 s.recv}:{b01 s.timed}")
+  | ["steps"] => " ".intercalate (steps.map fun s => s!"{s.name}:{b01 s.recv}:{b01 s.timed}:{b01 s.inLoop}")
   | ["stall", k, start, t, d] =>
     match k.toNat?, start.toNat?, t.toNat?, optNat? d with
     | some k, some start, some t, some d =>
